@@ -35,7 +35,7 @@ def pendOf (p : Pend) : Option (Tag × Name) :=
   | .slow (some i) _ => some (p.tag, sname i)
   | .del i true => some (p.tag, sname i)
   | .cls i => some (p.tag, sname i)
-  | .upl i _ true _ => some (p.tag, sname i)
+  | .upl i _ _ => some (p.tag, sname i)
   | _ => none
 
 /-- the monitor's `run` entry -/
@@ -57,7 +57,7 @@ def sidOf (p : Pend) : Option Nat :=
   | .run i _ => some i
   | .del i _ => some i
   | .cls i => some i
-  | .upl i _ _ _ => some i
+  | .upl i _ _ => some i
 
 /-! ### entries -/
 
@@ -113,7 +113,7 @@ structure PendOk (d : RState) : Prop where
     | .run _ slot => p.tag = .r slot ∧ 1 ≤ slot ∧ slot ≤ d.nslow ∧ slot ∉ d.released
     | .del i _ => (∃ n, p.tag = .d n ∧ n ≤ d.nasync) ∧ isLive d.st i = true
     | .cls i => (∃ n, p.tag = .c n ∧ n ≤ d.nasync) ∧ isLive d.st i = true
-    | .upl _ n _ _ => p.tag = .u n ∧ n ≤ d.nasync
+    | .upl _ n _ => p.tag = .u n ∧ n ≤ d.nasync
   minted : ∀ p ∈ d.pend, ∀ i, sidOf p = some i → i < d.st.next
   sids : ∀ p ∈ d.pend, (sidOf p).isSome = true    -- (stateful endpoint: every request belongs to a session)
   relLe : ∀ k ∈ d.released, k ≤ d.nslow
